@@ -1,2 +1,33 @@
-From Coq Require Import List.
-Theorem C13_placeholder : True. Proof. exact I. Qed.
+(* C13 - tensor factories run once per call, with the resolved shape, only at run time.
+   Static part over the kernel regenerated from namedtensor_calltensorfactory.py
+   (Gen/GenFactory.v): which keywords can reach a factory.  Invocation count, the shape argument,
+   "never at trace time", and the substitution property are decided by the history harness; the
+   validator of C04 shows that the call node is executed exactly as often as it is written. *)
+From Coq Require Import String List Bool.
+From EinxV Require Import Gen.GenFactory.
+Import ListNotations.
+Open Scope string_scope.
+
+(* keywords forwarded to a factory, given what it declares *)
+Definition forwarded (has_var_kwargs : bool) (declared : string -> option pkind) (offered : list string) : list string :=
+  filter (fun n => gen_use_parameter has_var_kwargs (declared n)) offered.
+
+(* only name / arg_index / signature are ever offered, so nothing else can be forwarded *)
+Theorem C13_only_documented_keywords : forall v d n, In n (forwarded v d gen_factory_offered) -> In n ["signature"; "arg_index"; "name"].
+Proof. intros v d n H. apply filter_In in H as [H _]. exact H. Qed.
+
+(* a factory without **kwargs receives a keyword only if it declares it as a (positional-or-)keyword parameter *)
+Theorem C13_undeclared_keywords_are_not_forwarded : forall d offered n,
+  In n (forwarded false d offered) ->
+  exists k, d n = Some k /\ (k = POSITIONAL_OR_KEYWORD \/ k = KEYWORD_ONLY).
+Proof.
+  intros d offered n H. apply filter_In in H as [_ H]. unfold gen_use_parameter in H. cbn [orb] in H.
+  destruct (d n) as [k|]; [|discriminate]. exists k. split; [reflexivity|]. destruct k; cbn in H; try discriminate; auto.
+Qed.
+
+(* a factory with **kwargs receives everything that is offered *)
+Theorem C13_var_keyword_factories_receive_all : forall d offered, forwarded true d offered = offered.
+Proof.
+  intros d offered. unfold forwarded. induction offered as [|n l IH]; [reflexivity|]. cbn [filter]. unfold gen_use_parameter at 1. cbn [orb]. now rewrite IH.
+Qed.
+Print Assumptions C13_undeclared_keywords_are_not_forwarded.
